@@ -247,6 +247,8 @@ def gen_C03(rng, tier):
         rng.shuffle(reads)
         prog = [leaf_stmt(0, f, c)] + reads[: rng.randint(0, 3)]
         r = 0
+        if rng.random() < 0.3:      # the function after a history of queries, uses and in-place layering
+            warmup(rng, prog, 0, pts)
         if rng.random() < 0.4:      # the function as the result of earlier operations (views must still agree)
             r, _ = derive(rng, prog, 0, 10)
         prog += [C.query(r, "limit", side="left", xs=qs), C.query(r, "limit", side="right", xs=qs),
@@ -278,6 +280,8 @@ def gen_C06(rng, tier):
         prog = [leaf_stmt(0, f, ca)]
         pts = leaf_points(f, g[0])
         nanleaf = has_nan(f)
+        if rng.random() < 0.3:
+            warmup(rng, prog, 0, leaf_points(f))
         if kind == "clip":
             lo, hi = bounds(rng, f)
             prog.append(C.clip(2, 0, lo, hi))
@@ -292,6 +296,10 @@ def gen_C06(rng, tier):
         else:
             prog.append(C.un(2, kind, 0))
         prog += observe_all(2, pts)
+        if rng.random() < 0.3:
+            poststats(rng, prog, 2)
+        if rng.random() < 0.3:   # the operand is still what it was
+            prog += observe_all(0, pts)
         if rng.random() < 0.3:   # receivers already restricted
             lo, hi = bounds(rng, f)
             prog.append(C.clip(3, 2, lo, hi))
@@ -311,6 +319,8 @@ def gen_C07(rng, tier):
         prog = [leaf_stmt(0, f, ca)]
         nanleaf = has_nan(f)
         pts = leaf_points(f, g[0])
+        if rng.random() < 0.3:
+            warmup(rng, prog, 0, leaf_points(f))
         if kind == "scalar":
             prog.append(C.fills(2, 0, rng.choice([F(0), F(1), F(7), F(-1, 2)])))
         elif kind in ("ffill", "bfill"):
@@ -319,6 +329,10 @@ def gen_C07(rng, tier):
             prog += [leaf_stmt(1, g, cb), C.fillg(2, 0, 1)]
             nanleaf = nanleaf or has_nan(g)
         prog += observe_all(2, pts)
+        if rng.random() < 0.3:
+            poststats(rng, prog, 2)
+        if rng.random() < 0.3:   # the operand is still what it was
+            prog += observe_all(0, pts)
         cases.append(mk(f"C07/{kind}/{k}", prog, flav(rng, nanleaf), tags=[kind]))
     return cases
 
@@ -419,6 +433,14 @@ def gen_C08(rng, tier):
         c = rng.choice(SIDES)
         prog = [leaf_stmt(0, f, c)]
         if rng.random() < 0.3:
+            warmup(rng, prog, 0, leaf_points(f), qset=TOL_WARM)
+        if k % 8 == 0:        # directed history: statistics, in-place layering, statistics again
+            lp = leaf_points(f) or [F(0), F(1)]
+            prog += [C.query(0, q) for q in rng.sample(["var", "mean", "integral", "value_sums"], 2)]
+            a, b = rng.choice(lp), rng.choice(lp + [lp[-1] + 1])
+            prog.append(rng.choice([C.layer_s(0, a, b, F(1)), C.layer_v(0, [(a, b, F(2))]), C.layer_s(0, None, None, F(1)),
+                                    C.layer_s(0, a, None, F(-1))]))
+        if rng.random() < 0.3:
             lo, hi = bounds(rng, f)
             prog.append(C.clip(0, 0, lo, hi))       # clipped functions
         qs = [C.query(0, "value_sums"), C.query(0, "integral"), C.query(0, "mean"), C.query(0, "var"),
@@ -470,8 +492,11 @@ def gen_C09(rng, tier):
               C.query(0, "describe", lo=pts[0], hi=pts[-1], ps=[F(0), F(100)]) if pow2 else C.query(0, "mode"),
               C.query(0, "hist", bins=bins, closed=rng.choice(SIDES), stat=hstat)]
         rng.shuffle(qs)
-        prog = [leaf_stmt(0, f, c)] + qs[: rng.randint(4, 9)]
-        exact = pow2 and not any(q["q"] == "describe" for q in prog[1:])      # describe reports std: sqrt, then squared again
+        prog = [leaf_stmt(0, f, c)]
+        if rng.random() < 0.3:      # queried and used before (no in-place layering: the total length stays a power of two)
+            warmup(rng, prog, 0, pts, inplace=False, qset=POW2_WARM if pow2 else TOL_WARM)
+        prog += qs[: rng.randint(4, 9)]
+        exact = pow2 and not any(q.get("q") == "describe" for q in prog[1:])      # describe reports std: sqrt, then squared again
         cases.append(mk(f"C09/{'pow2' if pow2 else 'gen'}/{k}", prog, flav(rng, has_nan(f)), mode="exact" if exact else "tol", tags=["dist"]))
     return cases
 
@@ -488,6 +513,8 @@ def gen_C10(rng, tier):
         c = rng.choice(SIDES)
         pts = leaf_points(f)
         prog = [leaf_stmt(0, f, c)]
+        if rng.random() < 0.35:
+            warmup(rng, prog, 0, pts)
         for _ in range(rng.randint(2, 5)):
             lo = rng.choice([None] + pts)
             hi = rng.choice([None] + [p for p in pts if lo is None or p > lo])      # a window has lower < upper
@@ -776,6 +803,71 @@ def stat_query(rng, r, kind):
     return C.query(r, kind)
 
 
+# statistics whose binary64 result is exact on dyadic data / within the relative tolerance / exact when the total length is
+# a power of two as well (cumulative shares)
+EXACT_WARM = ["integral", "min", "max", "vir", "value_sums", "sample", "limit", "mode"]
+TOL_WARM = EXACT_WARM + ["mean", "var"]
+POW2_WARM = TOL_WARM + ["median", "percentile", "fractile"]
+
+
+def warmup(rng, prog, r, pts, inplace=True, scratch=60, qset=EXACT_WARM):
+    """history of the operand before the statement under test: it has been queried (so that materialised internal forms
+    and cached statistics exist), used as the receiver of other operations whose results are dropped (an operation that
+    writes into its operand then shows in what follows), and - when `inplace` - extended in place by layer calls
+    (ordinary, unbounded, empty, exactly cancelling) after that (anything kept from before the mutation then shows)."""
+    pts = sorted({p for p in pts if p is not None}) or [F(0), F(1)]
+    grid = pts + [pts[-1] + 1]
+    for _ in range(rng.choice([1, 1, 2, 3])):
+        k = rng.choice(["q", "q", "use", "use", "layer"] if inplace else ["q", "q", "use"])
+        if k == "q":
+            for name in rng.sample(qset, rng.randint(1, 3)):
+                prog.append(stat_query(rng, r, name))
+        elif k == "use":
+            u = rng.choice(["cliphi", "cliphi", "cliplo", "clip", "maskt", "fill0", "neg", "addc", "isna", "copy", "slicer", "bfill"])
+            a, b = rng.choice(pts), rng.choice(grid)
+            if u == "cliphi":
+                prog.append(C.clip(scratch, r, None, a))
+            elif u == "cliplo":
+                prog.append(C.clip(scratch, r, a, None))
+            elif u == "clip" and a < b:
+                prog.append(C.clip(scratch, r, a, b))
+            elif u == "maskt" and a < b:
+                prog.append(C.maskt(scratch, r, a, b, inverse=rng.random() < 0.5))
+            elif u == "fill0":
+                prog.append(C.fills(scratch, r, F(0)))
+            elif u == "addc":
+                prog.append(C.bin_(scratch, "add", C.reg(r), C.cst(F(1))))
+            elif u == "slicer" and a < b:
+                prog.append(C.query(r, "slicer", stat=rng.choice(["mean", "max", "integral"] if qset is TOL_WARM else ["min", "max", "integral"]), icl=rng.choice(IVC), ivs=[(a, b)]))
+                continue
+            elif u in ("neg", "isna", "copy", "bfill"):
+                prog.append(C.un(scratch, u, r))
+            else:
+                continue
+            if rng.random() < 0.5:      # the dropped result is itself looked at (a stale statistic carried over shows here)
+                prog.append(stat_query(rng, scratch, rng.choice([q for q in qset if q in ("integral", "mean", "max", "min", "sample")])))
+            scratch += 1
+        else:
+            form = rng.choice(["plain", "plain", "unbounded", "empty", "cancel"])
+            v = rng.choice([F(1), F(-1), F(2)])
+            a, b = rng.choice(grid), rng.choice(grid)
+            if form == "plain":
+                prog.append(C.layer_s(r, a, b, v) if rng.random() < 0.5 else C.layer_v(r, [(a, b, v)]))
+            elif form == "unbounded":
+                prog.append(C.layer_s(r, None, None, rng.choice([v, None])))
+            elif form == "empty":
+                prog.append(C.layer_s(r, a, a, v))
+            else:
+                prog.append(C.layer_v(r, [(a, b, v), (a, b, -v)]))
+    return scratch
+
+
+def poststats(rng, prog, r, qset=EXACT_WARM):
+    """statistics of a derived function (a statistic cached on an operand must not travel to the result)"""
+    for name in rng.sample([q for q in qset if q not in ("sample", "limit")], rng.randint(1, 2)):
+        prog.append(stat_query(rng, r, name))
+
+
 def gen_C14(rng, tier):
     n = 2500 if tier == "quick" else 20000
     cases = []
@@ -811,6 +903,10 @@ def gen_C14(rng, tier):
             elif undo is not None:
                 prog.append(C.layer_s(0, *undo))     # a mutation that returns the function to an earlier state
                 undo = None
+            elif rng.random() < 0.5:                 # a function derived from the queried one has its own statistics
+                d = rng.choice(["copy", "clip", "neg"])
+                prog.append(C.clip(70 + k % 5, 0, F(0), F(2)) if d == "clip" else C.un(70 + k % 5, d, 0))
+                prog.append(stat_query(rng, 70 + k % 5, rng.choice(["integral", "mean", "max", "min", "value_sums"])))
             if rng.random() < 0.5:
                 prog.append(stat_query(rng, 0, rng.choice(STAT_Q)))
         prog += [stat_query(rng, 0, q) for q in rng.sample(STAT_Q, 4)] + [C.read(0, "frame")]
@@ -921,6 +1017,8 @@ def gen_C11(rng, tier):
         c = rng.choice(SIDES)
         icl = rng.choice(IVC)
         prog = [leaf_stmt(0, f, c)]
+        if rng.random() < 0.4:
+            warmup(rng, prog, 0, leaf_points(f), qset=TOL_WARM)
         if k % 2 == 0:
             ivs = rand_intervals(rng, f, tiling=rng.random() < 0.4)
             for st in rng.sample(SSTATS, 3):
